@@ -22,8 +22,19 @@ func init() {
 			c.floor("A3.CNT", 4)
 			c.floor("A3.GUARD", 2)
 			c.floor("A3.NILDEP", 2)
+			// combinators leave their operand lists as they were given: no exported
+			// method of a solid type writes receiver-reachable memory
+			qAllExported = true
+			c.runQueryPurityFor(newEffEngine(c), c.libPkgs()[:2], "Q", map[string][]string{
+				"model3d": {"Solid"},
+				"model2d": {"Solid"},
+			})
+			qAllExported = false
+			c.floor("Q", 100)
 		},
 		SelfTest: []Mutation{
+			{Name: "Optimize regroups the caller's operand slice in place", File: "model3d/solid.go",
+				Old: "\tgrouped := append([]Solid{}, j...)\n\tGroupBounders(grouped)\n\treturn groupedSolidsToSolid(grouped)", New: "\tgrouped := []Solid(j)\n\tGroupBounders(grouped)\n\treturn groupedSolidsToSolid(grouped)", Rule: "Q", Expect: "Optimize"},
 			{Name: "first two distances never sorted (defect F2)", File: "model3d/solid.go",
 				Old: "if i == 1 {", New: "if i == 2 {", All: true, Rule: "CB", Expect: "SmoothJoin"},
 			{Name: "new closest overwrites before shifting", File: "model2d/solid.go",
